@@ -14,7 +14,7 @@ out = ["# Mutation sweep: results and triage of survivors", "", "Produced by too
 untri = []
 tot = collections.Counter()
 for f in sorted(glob.glob('/verif/mutants/sweep/*.jsonl')):
-    rs = [json.loads(l) for l in open(f)]
+    rs = list({(r['file'], r['line'], r['op'], r.get('k', 0)): r for r in (json.loads(l) for l in open(f))}.values())  # latest record per mutant
     c = collections.Counter(r['result'] for r in rs)
     tot.update(c)
     g = os.path.basename(f)[:-6]
